@@ -59,6 +59,11 @@ type Plan struct {
 	// PipeConnect: every connection the plan opens implicitly writes its CONNECT
 	// and a PINGREQ in one piece.
 	PipeConnect bool `json:"pipe_connect,omitempty"`
+	// Auth: the broker checks credentials (any user, password "pass"): the plan's clients send
+	// them, and operation "badconnect" is a CONNECT with a client's identifier and a wrong
+	// password - refused with code 4, and without any effect on what the identifier's
+	// session is.
+	Auth bool `json:"auth,omitempty"`
 }
 
 // payload builds the message body: the first bytes name the message, the
@@ -438,6 +443,36 @@ func (e *exec) ensureConnected(ci int) bool {
 	return e.conns[ci] != nil
 }
 
+// creds adds the credentials the plan's broker asks for (if it does).
+func (e *exec) creds(cp *codec.Packet, pass string) {
+	if e.p.Auth {
+		cp.ConnectFlags |= 128 | 64
+		cp.Username, cp.Password = []byte("u-"+string(cp.ClientID)), []byte(pass)
+	}
+}
+
+// doBadConnect: somebody connects with client ci's identifier and a wrong password
+// (CleanSession as drawn, a will of his own): refused, and of no consequence.
+func (e *exec) doBadConnect(ci int, clean bool) {
+	if !e.p.Auth || e.conns[ci] != nil {
+		return
+	}
+	c := e.b.Dial(clientID(ci) + "-impostor")
+	cp := wire.ConnectPacket(clientID(ci), clean, 120)
+	e.creds(cp, "wrong")
+	cp.ConnectFlags |= 4
+	cp.WillTopic, cp.WillMessage = []byte("w/impostor"), []byte("never")
+	ack, err := c.Connect(cp)
+	if err == nil && ack.ReturnCode == 0 {
+		e.report(dConnack, "-", "a CONNECT with the identifier of client %d and a wrong password was accepted", ci)
+	}
+	c.WaitClosed(wire.DefaultWait)
+	c.Close()
+	c.Served(wire.DefaultWait)
+	e.class("refused-connect-with-a-client's-identifier")
+	e.checkDeliveries(nil, false)
+}
+
 func (e *exec) doConnect(ci int, clean bool, w *Will) {
 	pipe := 0
 	if e.p.PipeConnect {
@@ -462,6 +497,7 @@ func (e *exec) doConnectKA(ci int, clean bool, w *Will, eofData bool, pipe int, 
 		e.class("transport-returns-data-with-eof")
 	}
 	cp := wire.ConnectPacket(clientID(ci), clean, 120)
+	e.creds(cp, "pass")
 	if ka0 {
 		cp.KeepAlive = 0
 		e.class("connect-with-keep-alive-0")
@@ -568,6 +604,7 @@ func (e *exec) doAbortedConnect(ci int) {
 	}
 	c := e.b.DialStalled(clientID(ci))
 	cp := wire.ConnectPacket(clientID(ci), false, 120)
+	e.creds(cp, "pass")
 	if err := c.SendRawTimeout(codec.Encode(cp), wire.DefaultWait); err != nil {
 		e.report(dLive, "-", "client %d: CONNECT of an attempt that is then aborted could not be written: %v", ci, err)
 	}
@@ -1334,7 +1371,11 @@ func normalise(p *Plan) {
 // runPlan executes a plan on a fresh broker.
 func runPlan(p Plan, known func(string) bool) outcome {
 	normalise(&p)
-	b, err := fix.New(int64(p.BufSize), "")
+	authName := ""
+	if p.Auth {
+		authName = fix.AuthGate
+	}
+	b, err := fix.New(int64(p.BufSize), authName)
 	if err != nil {
 		return outcome{Inconclusive: "fixture: " + err.Error()}
 	}
@@ -1386,6 +1427,8 @@ func runPlan(p Plan, known func(string) bool) outcome {
 			e.doAbortedConnect(op.C)
 		case "second-connect":
 			e.doSecondConnect(op.C)
+		case "badconnect":
+			e.doBadConnect(op.C, op.Clean)
 		case "isub":
 			if len(e.inproc) > 0 {
 				e.doInprocSub(op)
